@@ -247,6 +247,17 @@ func (f *FS) WriteFileDirect(p string, data []byte) {
 // RemoveDirect deletes a file if present.
 func (f *FS) RemoveDirect(p string) { delete(f.nodes, clean(p)) }
 
+// FileCount returns the number of regular files (scheduler side, no allocation).
+func (f *FS) FileCount() int {
+	n := 0
+	for _, nd := range f.nodes {
+		if !nd.dir {
+			n++
+		}
+	}
+	return n
+}
+
 // MkdirAllDirect creates directories.
 func (f *FS) MkdirAllDirect(p string) { f.mkdirAll(clean(p)) }
 
